@@ -594,6 +594,31 @@ func (g *Gen) genFunction(fn *ssa.Function, con *Contract, safety bool) *FnCtx {
 		}
 	}
 	fc.findLoops()
+	// the call-log ghosts of tracked calls exist from the start (value: zero of their sort), so that a loop invariant
+	// can mention the last result of a call that has not happened yet
+	for _, b := range fn.Blocks {
+		for _, in := range b.Instrs {
+			ci, ok := in.(ssa.CallInstruction)
+			if !ok {
+				continue
+			}
+			name := g.trackName(ci.Common())
+			if name == "" {
+				continue
+			}
+			res := ci.Common().Signature().Results()
+			for i := 0; i < res.Len(); i++ {
+				if isStructLike(res.At(i).Type()) {
+					continue
+				}
+				k := fmt.Sprintf("#%s.ret%d", name, i)
+				if _, ok := fc.ghostSort[k]; !ok {
+					fc.ghostSort[k] = g.ti.sortOf(res.At(i).Type())
+					fc.ghostInit[k] = zeroOf(fc.ghostSort[k])
+				}
+			}
+		}
+	}
 	// entry state
 	st := &State{fc: fc, reach: "true", locals: map[*ssa.Alloc]string{}, heap: map[string]string{}, ghost: map[string]string{}, nonnil: map[string]bool{}, bounds: map[string]string{}, baseBound: "alloc0", young: map[string]string{}}
 	st.allocB = fc.q.declare("alloc0", sInt)
